@@ -127,6 +127,8 @@ func panicSite(op string) string {
 			rawD(f)
 		case "sr":
 			rawSR(f)
+		case "sk":
+			sx.ExecSKRaw(f)
 		case "j":
 			rawJ(f)
 		case "m":
@@ -1724,7 +1726,7 @@ func main() {
 	}
 
 	// (4) JSON documents
-	nJ := 5200 * scale
+	nJ := 7000 * scale // 11 targets
 	pl := pool()
 	alwaysKind := map[int]bool{}
 	seenKind := map[string]bool{}
